@@ -169,7 +169,15 @@ def r1(ctx: Ctx) -> None:
             ok = norm(h.type) == "ResolveAPIError" and h.name is not None and any(isinstance(s, ast.Assign) and norm(s.value) == h.name for s in h.body) and not any(isinstance(s, (ast.Return, ast.Raise, ast.Continue, ast.Break)) for s in h.body)
             ctx.ob("C20.R1", fn, "only ResolveAPIError from mDNS is absorbed (remembered, then the OS resolver is tried)", ok, f"except {norm(h.type)} as {h.name}")
         elif any(c in in_try for c in lit_calls):
-            ok = norm(h.type) == "ValueError" and all(isinstance(s, ast.Pass) for s in h.body)
+            def _nothing(st: ast.stmt) -> bool:
+                # "not a literal": nothing happens - pass, or an empty result bound to a local
+                if isinstance(st, ast.Pass):
+                    return True
+                if isinstance(st, ast.Assign) and len(st.targets) == 1 and isinstance(st.targets[0], ast.Name) and isinstance(st.value, (ast.List, ast.Tuple)) and not st.value.elts:
+                    return True
+                return False
+
+            ok = norm(h.type) == "ValueError" and all(_nothing(s) for s in h.body)
             ctx.ob("C20.R1", fn, "only 'not a literal' (ValueError) is absorbed on the literal path", ok, f"except {norm(h.type)}")
         else:
             ctx.ob("C20.R1", fn, f"unexpected exception handler except {norm(h.type)}", False, "errors of the OS resolver must propagate")
